@@ -207,8 +207,17 @@ def tlc(module, cfg, workers=None, env=None, timeout=900, outfile=None, heap="4g
     e.pop("JAVA_TOOL_OPTIONS", None)
     if env: e.update({k: str(v) for k, v in env.items()})
     t0 = time.time()
-    with open(outfile, "w") as of:
-        p = sh(cmd, cwd=cwd, env=e, stdout=of, stderr=subprocess.STDOUT)
+    for attempt in range(3):
+        with open(outfile, "w") as of:
+            p = sh(cmd, cwd=cwd, env=e, stdout=of, stderr=subprocess.STDOUT)
+        if p.returncode not in (-9, 137):
+            break
+        # killed from outside (memory pressure from concurrent runs): wait for the machine to settle and start over
+        shutil.rmtree(os.path.join(meta, "states"), ignore_errors=True)
+        for f in os.listdir(meta):
+            if f != os.path.basename(outfile):
+                shutil.rmtree(os.path.join(meta, f), ignore_errors=True) if os.path.isdir(os.path.join(meta, f)) else os.remove(os.path.join(meta, f))
+        time.sleep(60 * (attempt + 1))
     r = TlcResult(); r.rc = p.returncode; r.wall = time.time() - t0; r.outfile = outfile
     keep = []
     with open(outfile, errors="replace") as f:
